@@ -529,5 +529,7 @@ def focus_programs():
     out.append(("format-scale", wrap([S("format (1x, 1pe12.4, 2p f8.3, 0pg10.3e2, i5, es9.2)", "format", label="100")]), {1}))
     # labels written with leading zeros (not significant: 0010 is label 10)
     out.append(("zero-labels", wrap([S("a = 1", "assign", label="0010"), S("if (a > 0) b = 'p q'", "focus", label="020"), S("continue", "continue", label="00030")]), {1, 2, 3}))
+    # the same literal / exponent constant twice inside ONE parenthesised group (joined by ';' the text is rebuilt by one map application)
+    out.append(("dup-in-group", wrap([S("call put('a b', 'a b')", "focus"), S("z = f(1.0e-3, 1.0e-3)", "focus"), S("k = 1", "assign")]), {1, 2, 3}))
     out.append(("named-if-chain", wrap([S("a = 1", "assign"), opener("if (a > 0) then", "if_then", name="chk"), S("b = 2", "assign"), closer("end if chk", "end_if"), S("c = 3", "assign")]), {1, 2, 3, 4, 5}))
     return out
